@@ -116,16 +116,19 @@ _line_code = Contract(
     file='jedi/api/classes.py', qualname='BaseName.get_line_code',
     params={'self': Obj('BN'), 'before': INT, 'after': INT}, families=['BN', 'NM', 'RC17'], ret=STR,
     requires=['before >= 0', 'after >= 0',
-              # names that live in a module with source text have a position inside that text
-              'implies(self._name.is_value_name and self._name.get_root_context().code_lines is not None, '
-              'self._name.start_pos is not None and 1 <= self._name.start_pos[0] '
+              # a name that has a position in a module with source text lies inside that text
+              'implies(self._name.is_value_name and self._name.get_root_context().code_lines is not None '
+              'and self._name.start_pos is not None, 1 <= self._name.start_pos[0] '
               'and self._name.start_pos[0] <= len(self._name.get_root_context().code_lines))'],
     ensures=[
-        'implies(not self._name.is_value_name or self._name.get_root_context().code_lines is None, result == "")',
-        'implies(self._name.is_value_name and self._name.get_root_context().code_lines is not None, '
+        # total: names without source or without position give ''
+        'implies(not self._name.is_value_name or self._name.get_root_context().code_lines is None '
+        'or self._name.start_pos is None, result == "")',
+        'implies(self._name.is_value_name and self._name.get_root_context().code_lines is not None '
+        'and self._name.start_pos is not None, '
         'result == window(self._name.get_root_context().code_lines, self._name.start_pos[0], before, after))',
         'implies(self._name.is_value_name and self._name.get_root_context().code_lines is not None '
-        'and before == 0 and after == 0, '
+        'and self._name.start_pos is not None and before == 0 and after == 0, '
         'result == self._name.get_root_context().code_lines[self._name.start_pos[0] - 1])',
     ],
     witness={'lines': 'self._name.get_root_context().code_lines', 'line': 'self._name.start_pos[0]',
